@@ -3,7 +3,8 @@
 Hidden temporaries are named `%tmp<i>` from a counter that is never reset ("the property is stated up to that numbering").  That
 is harmless only while nothing ORDERS such names by their spelling: `sort_vars` / `compare_var` fix the order in which a basic
 block passes its variables on (block signatures, rows of the branch sum).  Both are interpreted on pairs of non-linear places
-named `%tmp<i>`, `%tmp<j>` with i < j, for counters below and across a power of ten.  Decided: the place created first comes
+named `%tmp<i>`, `%tmp<j>` with i < j, for counters below and across a power of ten, and on places derived from them
+(`%tmp<i>.a`, `%tmp<i>[0]`: fields / elements of a struct- or tuple-typed temporary, where the counter sits in the middle of the name).  Decided: the place created first comes
 first in every case -- so the same function lowered later in a session (all counters shifted) gets the same signature order.
 """
 
@@ -36,10 +37,24 @@ def run(ctx: Ctx) -> bool:
                 names = [p.name for p in got] if isinstance(got, list) else None
                 if names != [f"%tmp{i}", f"%tmp{j}"]:
                     bad.append({"row": [p.name for p in row], "sorted": names, "should_be": [f"%tmp{i}", f"%tmp{j}"]})
+        # places DERIVED from temporaries (fields / elements of a struct- or tuple-typed temporary) carry the counter in the middle
+        for i, j in ((9, 10), (99, 100), (3, 4)):
+            for suffix in (".a", "[0]", ".a.b"):
+                for flip in (False, True):
+                    pi, pj = place(i), place(j)
+                    for q in (pi, pj):
+                        nm = q.name + suffix
+                        q.name = nm
+                        q.attrs.update(id=nm, name=nm, __str__=nm)
+                    row = [pj, pi] if flip else [pi, pj]
+                    got = PyEval(idx, CC).ev(ast.parse("sort_vars(__row__)", mode="eval").body, {"__row__": row})
+                    names = [p.name for p in got] if isinstance(got, list) else None
+                    if names != [f"%tmp{i}{suffix}", f"%tmp{j}{suffix}"]:
+                        bad.append({"row": [p.name for p in row], "sorted": names, "should_be": [f"%tmp{i}{suffix}", f"%tmp{j}{suffix}"]})
     except (Unsupported, Raised) as e:
         ctx.undecided("R-C11.6", key, f.where, str(e))
         return False
-    ctx.check(not bad, "R-C11.6", key, f.where, {"pairs": 16, "counterexamples": bad[:4], "n_counterexamples": len(bad)},
+    ctx.check(not bad, "R-C11.6", key, f.where, {"pairs": 16 + 18, "counterexamples": bad[:4], "n_counterexamples": len(bad)},
               "two temporaries change their relative order when the session counter crosses a power of ten (`%tmp10` < `%tmp9` as strings): the "
               "inputs of a basic block are ordered differently when the same function is compiled again later in the session -- a different Hugr")
     return True
